@@ -295,7 +295,8 @@ func WrapDnsResponseTxt(msg *dns.Msg, data []byte, domain string) error {
 			data = data[0:0]
 		}
 
-		txtData = append(txtData, string(d))
+		// TXT strings are handed to the DNS library in presentation format, where a backslash starts an escape
+		txtData = append(txtData, strings.Replace(string(d), "\\", "\\\\", -1))
 
 		// Limit answer to 250 strings
 		if len(txtData) == 250 {
